@@ -26,6 +26,8 @@ func checkC15(c *Ctx) {
 	ruleEnumerationFailureWitness(c, "C15.e")
 	c.rule("C15.f", "the SearchRes marker is recognised by identity: IsSearchRes consults the marker it compares against", 2)
 	ruleMarkerIdentity(c, "C15.f")
+	c.rule("C15.g", "a constant index into a caller-supplied set or list is dominated by a length test (empty sets are legal)", 1)
+	ruleConstIndexGuarded(c, "C15.g", "", "internal/imapnum")
 }
 
 // layoutIdentical: same shape in memory.
